@@ -2868,7 +2868,9 @@ func (r *Runtime) ForOf(iterable Value, step func(curValue Value) (continueItera
 				continueIteration = step(value)
 			})
 			if ex != nil {
-				iter.returnIter()
+				// IteratorClose with a throw completion: the original exception wins over anything the
+				// iterator's return() throws or returns (https://262.ecma-international.org/#sec-iteratorclose)
+				_ = r.vm.try(iter.returnIter)
 				panic(ex)
 			}
 			if !continueIteration {
